@@ -1,7 +1,9 @@
 mod core;
 mod exec;
 mod gen;
+mod pipeline;
 mod props;
+mod sched;
 
 fn main() {
     std::process::exit(core::batch::main_entry());
